@@ -13,6 +13,7 @@ import (
 	"encoding/binary"
 	"encoding/hex"
 	"fmt"
+	"math/bits"
 	"math/rand"
 	"os"
 	"os/exec"
@@ -669,6 +670,63 @@ func (g *genCtx) pcr0Digest(v uint64) []byte {
 	return append([]byte{}, d...) // the caller's copy may be edited later; the table entry must not change with it
 }
 
+// the digest of PCR0_DATA with the given bits flipped (bit i = bit i%8 of byte i/8; the register is bits 0..63, the
+// fields that follow it - ACM SVN, signatures, IBB digest - are the rest).  Only a buffer that differs from the
+// measured one inside the register alone is "PCR0_DATA with another register": only then the table learns it.
+func (g *genCtx) pcr0FlipDigest(bits []int) (dig []byte, v uint64, outside bool) {
+	for _, p := range g.b.pcr0All(g.alg) {
+		buf := append([]byte{}, p.raw...)
+		outside = false
+		for _, i := range bits {
+			if i/8 >= len(buf) {
+				continue
+			}
+			buf[i/8] ^= 1 << uint(i%8)
+			outside = outside || i >= 64
+		}
+		dig = hashOf(g.alg, buf)
+		v = le64first(buf)
+		if !outside {
+			g.hp = append(g.hp, hpEntry{p.m, v, dig})
+		}
+	}
+	return append([]byte{}, dig...), v, outside
+}
+
+// number of bits of the PCR0_DATA measurement of the bank
+func (g *genCtx) pcr0Bits() int {
+	_, _, raw := g.b.pcr0(g.alg)
+	return 8 * len(raw)
+}
+
+// a bit position behind the register: often the byte next to it or the last one
+func (g *genCtx) bitOutside() int {
+	n := g.pcr0Bits()
+	if n <= 64 {
+		return 64
+	}
+	switch g.rng.Intn(4) {
+	case 0:
+		return 64 + g.rng.Intn(8)
+	case 1:
+		return n - 1 - g.rng.Intn(8)
+	}
+	return 64 + g.rng.Intn(n-64)
+}
+
+// What the settings promise, read as their names and the property's quantifier say (not as the search is coded):
+// a recorded register value is found when it is the simulated one minus 0 < d < MaxACMPolicyLinearDistance or, with
+// EnableACMPolicyCombinatorialStrategy, differs from it in 1..MaxACMPolicyCombinatorialDistance bits.
+func reachable(st pcrbruteforcer.SettingsReproduceEventLog, reg, v uint64) bool {
+	if d := reg - v; d > 0 && st.MaxACMPolicyLinearDistance > 0 && d < uint64(st.MaxACMPolicyLinearDistance) {
+		return true
+	}
+	if k := bits.OnesCount64(reg ^ v); st.EnableACMPolicyCombinatorialStrategy && k > 0 && k <= st.MaxACMPolicyCombinatorialDistance {
+		return true
+	}
+	return false
+}
+
 func (g *genCtx) randDigest() []byte {
 	n := hashSize(g.alg)
 	if n < 0 {
@@ -832,15 +890,11 @@ func (g *genCtx) redigestPCR0() {
 	limit := g.st.MaxACMPolicyLinearDistance
 	var v uint64
 	var what string
-	switch rng.Intn(6) {
+	switch rng.Intn(9) {
 	case 0, 1: // inside the linear window
 		if limit > 0 {
 			d := rng.Intn(limit)
 			v, what = reg-uint64(d), fmt.Sprintf("decrement %d < limit %d", d, limit)
-			if d > 0 { // decrement 0 is the unchanged digest: a plain match, nothing to repair
-				w := v
-				g.want = &w
-			}
 			break
 		}
 		fallthrough
@@ -856,9 +910,25 @@ func (g *genCtx) redigestPCR0() {
 	case 4: // one flipped bit
 		bit := rng.Intn(64)
 		v, what = reg^(1<<uint(bit)), fmt.Sprintf("bit %d flipped", bit)
-	default: // two flipped bits
+	case 5: // two flipped bits
 		b1, b2 := rng.Intn(64), rng.Intn(64)
 		v, what = reg^(1<<uint(b1))^(1<<uint(b2)), fmt.Sprintf("bits %d,%d flipped", b1, b2)
+	default: // bits flipped behind the register (another ACM SVN, a bit error in the measured structure), alone or
+		// together with a register bit: no register value explains such a digest
+		fl := []int{g.bitOutside()}
+		switch rng.Intn(3) {
+		case 0:
+			fl = append(fl, g.bitOutside())
+		case 1:
+			fl = append(fl, rng.Intn(64))
+		}
+		g.evs[at].Digest.Digest, v, _ = g.pcr0FlipDigest(fl)
+		g.ops = append(g.ops, fmt.Sprintf("PCR0_DATA entry %d re-digested with bits %v of PCR0_DATA flipped (bits 0..63 are ACM_POLICY_STATUS, which reads %#x then)", at, fl, v))
+		return
+	}
+	if reachable(g.st, reg, v) { // (decrement 0 is the unchanged digest: a plain match, nothing to repair)
+		w := v
+		g.want = &w
 	}
 	g.evs[at].Digest.Digest = g.pcr0Digest(v)
 	g.ops = append(g.ops, fmt.Sprintf("PCR0_DATA entry %d re-digested with ACM_POLICY_STATUS %#x (%s)", at, v, what))
@@ -867,7 +937,7 @@ func (g *genCtx) redigestPCR0() {
 func randSettings(rng *rand.Rand) pcrbruteforcer.SettingsReproduceEventLog {
 	st := pcrbruteforcer.SettingsReproduceEventLog{}
 	st.MaxACMPolicyLinearDistance = []int{0, 1, 2, 3, 4, 5, 8, 13, 16, 20, 33, 64, 128, -1, -7}[rng.Intn(15)]
-	st.EnableACMPolicyCombinatorialStrategy = rng.Intn(3) == 0
+	st.EnableACMPolicyCombinatorialStrategy = rng.Intn(2) == 0
 	st.MaxACMPolicyCombinatorialDistance = []int{0, 1, 1, 2}[rng.Intn(4)]
 	st.DisabledEventsMaxDistance = uint64([]int{0, 1, 2, 2, 3, 4}[rng.Intn(6)])
 	st.MaxDigestRangeGuesses = uint64(1 + rng.Intn(300))
@@ -1456,13 +1526,14 @@ func doCase(c *gal.Ctx, kind string, g *genCtx, nilLog bool) {
 		fail(fmt.Sprintf("%d issues reported, %d entries are not plain matches", len(o.Issues), issuesWanted))
 		return
 	}
-	// 3. a PCR0_DATA digest produced with a decrement inside the window must be repaired
+	// 3. a PCR0_DATA digest produced with a register the settings promise to find (a decrement inside the window, bit
+	// flips within the distance of the enabled combinatorial strategy) must be repaired, and with that register
 	if g.want != nil {
 		at := g.findWanted()
 		if at >= 0 {
 			for k, e := range o.Entries {
 				if e.Exp == at && e.Calc == pe && (e.Status != 1 || o.Reg == nil || *o.Reg != *g.want) {
-					fail(fmt.Sprintf("entry %d: PCR0_DATA recorded with ACM_POLICY_STATUS %#x (inside the linear window) is not repaired", k, *g.want))
+					fail(fmt.Sprintf("entry %d: PCR0_DATA recorded with ACM_POLICY_STATUS %#x (inside the linear window, or within the distance of the enabled combinatorial strategy) is not repaired with that value", k, *g.want))
 					return
 				}
 			}
@@ -1804,21 +1875,58 @@ func main() {
 					}
 				}
 			}
-			// bit flips
-			for k := 0; k < c.Scale(10, 60); k++ {
-				g := newGen(c, b, alg)
-				g.st.MaxACMPolicyLinearDistance = []int{0, 2, 8}[k%3]
-				g.st.EnableACMPolicyCombinatorialStrategy = k%4 != 3
-				g.st.MaxACMPolicyCombinatorialDistance = []int{1, 2, 0, 1, 2}[k%5]
-				b1, b2 := c.Rng.Intn(64), c.Rng.Intn(64)
-				v := reg ^ (1 << uint(b1))
-				if k%2 == 1 {
-					v ^= 1 << uint(b2)
+			// bit flips anywhere in PCR0_DATA, under every combination of the two combinatorial settings: inside the
+			// register (first / last bit, one, two, three bits), behind it (the next byte, the last byte, anywhere; one
+			// or two bits), and on both sides at once.  Only the first kind is a register correction, and only within
+			// the distance of the enabled strategy (or when the linear search happens to reach the value).
+			g0 := newGen(c, b, alg)
+			nbits := g0.pcr0Bits()
+			in := func() int { return c.Rng.Intn(64) }
+			pats := []struct {
+				name string
+				bits func() []int
+			}{
+				{"register bit 0", func() []int { return []int{0} }},
+				{"register bit 63", func() []int { return []int{63} }},
+				{"one register bit", func() []int { return []int{in()} }},
+				{"two register bits", func() []int { a := in(); return []int{a, (a + 1 + c.Rng.Intn(63)) % 64} }},
+				{"three register bits", func() []int {
+					a := in()
+					return []int{a, (a + 1 + c.Rng.Intn(31)) % 64, (a + 32 + c.Rng.Intn(31)) % 64}
+				}},
+				{"first bit behind the register", func() []int { return []int{64} }},
+				{"a bit of the byte behind the register", func() []int { return []int{64 + c.Rng.Intn(8)} }},
+				{"last bit of PCR0_DATA", func() []int { return []int{nbits - 1} }},
+				{"one bit behind the register", func() []int { return []int{g0.bitOutside()} }},
+				{"two bits behind the register", func() []int { a := g0.bitOutside(); return []int{a, 64 + (a-64+1+c.Rng.Intn(nbits-65))%(nbits-64)} }},
+				{"register bit 63 and the bit behind it", func() []int { return []int{63, 64} }},
+				{"a register bit and a bit behind the register", func() []int { return []int{in(), g0.bitOutside()} }},
+			}
+			if nbits > 72 {
+				for pi, pat := range pats {
+					for si, cs := range []struct {
+						on   bool
+						dist int
+					}{{false, 2}, {true, 0}, {true, 1}, {true, 2}} {
+						if !c.Thorough() && !cs.on && pi%2 == 1 {
+							continue
+						}
+						g := newGen(c, b, alg)
+						g.st.MaxACMPolicyLinearDistance = []int{0, 8, 2, 128}[(pi+si)%4]
+						g.st.EnableACMPolicyCombinatorialStrategy = cs.on
+						g.st.MaxACMPolicyCombinatorialDistance = cs.dist
+						fl := pat.bits()
+						at := g.findPCR0Entry()
+						var v uint64
+						var outside bool
+						g.evs[at].Digest.Digest, v, outside = g.pcr0FlipDigest(fl)
+						if !outside && reachable(g.st, reg, v) {
+							g.want = &v
+						}
+						g.ops = []string{fmt.Sprintf("PCR0_DATA entry re-digested with bits %v of PCR0_DATA flipped (%s; bits 0..63 are ACM_POLICY_STATUS, which reads %#x then)", fl, pat.name, v)}
+						doCase(c, "pcr0-bitflip", g, false)
+					}
 				}
-				at := g.findPCR0Entry()
-				g.evs[at].Digest.Digest = g.pcr0Digest(v)
-				g.ops = []string{fmt.Sprintf("PCR0_DATA entry re-digested with ACM_POLICY_STATUS %#x (bit flips)", v)}
-				doCase(c, "pcr0-bitflip", g, false)
 			}
 		}
 	}
